@@ -12,10 +12,28 @@ CFG = "INIT Init13\nNEXT Next13\nINVARIANT Emit13\n"
 INFV = 50
 
 
+_DCOPS = {}
+
+
+def dcop_for(inst, ext):
+    """One DCOP object per (instance, set of external variables): the cases that differ only by the external values or the
+    assignment are successive calls on the SAME object, the external variables being set in between (a history of calls)."""
+    import json
+    k = json.dumps([inst, sorted(ext or {})], sort_keys=True)
+    if k not in _DCOPS:
+        if len(_DCOPS) > 50:
+            _DCOPS.clear()
+        _DCOPS[k] = build_dcop(inst, ext=ext or None)
+    dcop, doms = _DCOPS[k]
+    for v, i in (ext or {}).items():
+        dcop.external_variables[v].value = doms[v][i - 1]
+    return dcop, doms
+
+
 def execute(case):
     inst = case["inst"]
     if case["op"] == "sol":
-        dcop, doms = build_dcop(inst, ext=case["ext"] or None)
+        dcop, doms = dcop_for(inst, case["ext"] or None)
         asg = {v: doms[v][i - 1] for v, i in (case["asg"] or {}).items()}
         try:
             got = dcop.solution_cost(asg, case["infinity"])
@@ -71,6 +89,8 @@ def run(tier):
                                  consts=dict(ShapeNames=set(shapes), Alpha=alpha, VCAlpha=[0, 3, INFV] if exh else [0, 3, INFV, 60], NPerShape=max(n, 1),
                                              Exhaustive=exh, Modes={"min"}, WithInit=False, InfV=INFV, NAsg=max(nasg, 1)))
         v.add_tlc(res, "case generation with expected results (Gen_C13, shapes %s, exhaustive tables=%s)" % (shapes, exh))
+        import json as _json
+        cases.sort(key=lambda c: _json.dumps([c["inst"], sorted(c.get("ext") or {}), c["op"]], sort_keys=True))
         CC.run_cases(v, cases, execute, key_of, nontrivial)
     v.cov["exhaustive"] = True
     v.cov["rule"] = ("exhaustive part: every cost table over {0,2,INF} of the shapes single/unary1/pair x 2 own-cost draws over {0,3,INF} x "
